@@ -23,6 +23,13 @@ CLAIMED = {
         "DESIGN 4 C18",
         "equality of generated machine code and Python semantics for all inputs is numba/LLVM correctness: outside the reach of contracts (bounded only).",
     ),
+    "C08": (
+        "proof",
+        "PARTIAL, scope stated: for the REAL kernel generators heavy.kernels.generate vs asy.kernels.generate_heavy_asy (same esf, nf, heavy flavour), per parton and per order, reg+sing and loc of the weighted kernel sums have the same mechanical limit eps = m2/Q2 -> 0+ (normal form over atoms, log(eps) split off by z3-proved log expansion, every other atom evaluated at eps = 0; lemma L-lim gives the O(eps log^k eps) rate), for all z in (0,1): CC F2/FL/F3 quark+gluon at orders 0-1 (Gluck-Kretzer-Reya closed forms), NC F2/FL/g1 VV+AA at O(a_s) through the real LeProHQ.cg0 Python source (executed, not stubbed), equal parton weights per channel. NOT covered (no contract can reach it): O(a_s^2) NC massive coefficients inside LeProHQ's interpolation grids and the Adler spline (numerical tables).",
+        "contract-based deductive verification: symbolic execution of the real massive and asymptotic kernels + mechanical limit (pvc.limit) + ratfun identity in Q(z, log eps, atoms)",
+        "DESIGN 9.6",
+        "L-lim and dominated convergence are textbook lemmas (stated, not machine-checked); native replay at Q2/m2 = 1e8.",
+    ),
     "C04": (
         "proof",
         "NLO closed forms: the real NLO quark and gluon kernels of F2, FL, F3, g1 (through the real NC/CC classes, nf 3..6) are identical, as elements of Q(z, ln z, ln(1-z)) with z3-justified log expansion, to the published closed forms (regular part, plus distributions, delta coefficient) for all z in (0,1). Sum rules: the first moment int_0^1 reg + loc(0+) of the real non-singlet kernels (Adler: F2 nu-nubar at orders 1-3; GLS/Bjorken: F3 and g1 at the available orders, nf 3..6) is computed by exact term-wise reduction of the kernel's symbolic normal form to a table of definite integrals and equals the analytic value (exactly at NLO, within 1e-4 of the cancellation scale for the fitted parametrisations).",
@@ -148,7 +155,6 @@ CLAIMED = {
 }
 
 NOT_APPLICABLE = {
-    "C08": "asymptotic rate of convergence (Q2/m2 -> infinity) over opaque compiled libraries (LeProHQ) is not expressible as a pre/postcondition over real-closed arithmetic; needs series expansion / numerical exploration (other families). See DESIGN 5.",
     "C19": "convergence under grid refinement / continuity at nodes is approximation theory about eko's interpolation polynomials and scipy quadrature, both outside /repo and outside what a contract can state. See DESIGN 5.",
 }
 
